@@ -52,7 +52,11 @@ def classes():
     from curtsies import events
 
     class Ev(events.Event):
+        slow = 0.0        # set by the concurrent workloads: a user's event type may take time to build
+
         def __init__(self, src=None, i=None):
+            if Ev.slow and (i or 0) % 3 == 0:
+                time.sleep(Ev.slow)
             self.src, self.i = src, i
 
         def __repr__(self):
@@ -460,6 +464,7 @@ def gen_concurrent(rng, R):
         script.append([rng.choice([0, 0, 0.001, 0.004, 0.015]), act])
     return {"kind": "conc", "paste_threshold": rng.choice([None, 8]), "script": script,
             "timeouts": [rng.choice([0, 0.002, 0.01, 0.05, 0.3]) for _ in range(12)],
+            "slow_ctor": rng.choice([0.0, 0.0, 0.0005, 0.002]),
             "yield_seed": rng.randrange(1 << 30)}
 
 
@@ -514,6 +519,7 @@ def run_conc(ctx, case, yields=None):
     th = threading.Thread(target=helper, name="helper")
     trace = ()
     late = []
+    Ev.slow = case.get("slow_ctor", 0.0)
     old_handler = signal.signal(signal.SIGINT, lambda s, f: late.append(time.monotonic()))
     try:
         with inp:
@@ -562,6 +568,7 @@ def run_conc(ctx, case, yields=None):
         if yields and yields.active:
             yields.stop()
         th.join(10)
+        Ev.slow = 0.0
         signal.signal(signal.SIGINT, old_handler)
     if late:
         ctx.count("sigints_after_context_left", len(late))
@@ -604,6 +611,7 @@ def run_pingpong(ctx, case, yields=None):
         done.set()
 
     delays = [rng.choice([0, 0, 1e-5, 3e-5, 1e-4, 3e-4, 1e-3]) for _ in range(rounds)]
+    Ev.slow = case.get("slow_ctor", 0.0)
     th = threading.Thread(target=helper, name="helper")
     lost = []
     got_wrong = []
@@ -641,6 +649,7 @@ def run_pingpong(ctx, case, yields=None):
         for _ in range(rounds):
             go.release()
         th.join(10)
+        Ev.slow = 0.0
         release_trigger_fds(inp, [ts])
     sig = ("C08", "pingpong", case["seed"], rounds)
     ctx.count("pingpong_rounds", rounds)
@@ -652,9 +661,74 @@ def run_pingpong(ctx, case, yields=None):
         ctx.judge(True, case, sig)
 
 
+def run_pairs(ctx, case):
+    """Two threadsafe triggers fired back to back by a helper thread - the second one with an
+    event type whose constructor takes a while, as a user's may - while the requesting thread
+    polls with timeout 0: both events must come out, in trigger order, exactly once."""
+    R = rig()
+    Ev, Sch = _CLS[0]
+    R.pty.drain_slave()
+    inp = R.ci.Input(R.pty.stream, keynames="bytes", sigint_event=False)
+    made = []
+
+    def slow_event(src=None, i=None):
+        time.sleep(case["ctor_s"])
+        return Ev(src=src, i=i)
+    ts_fast = inp.threadsafe_event_trigger(Ev)
+    ts_slow = inp.threadsafe_event_trigger(slow_event)
+    rounds = case["rounds"]
+    go = threading.Semaphore(0)
+    fired = []
+
+    def helper():
+        for i in range(rounds):
+            go.acquire()
+            ts_fast(src="pa", i=i)
+            ts_slow(src="pb", i=i)
+            fired.append(i)
+
+    th = threading.Thread(target=helper, name="helper")
+    lost, wrong = [], []
+    try:
+        with inp:
+            th.start()
+            for i in range(rounds):
+                go.release()
+                got = []
+                deadline = time.monotonic() + 3.0
+                while len(got) < 2 and time.monotonic() < deadline:
+                    r = describe(inp.send(0))
+                    if r[0] != "none":
+                        got.append(r)
+                    elif len(fired) > i and len(got) < 2:
+                        # both callbacks have returned: one more look, then give up
+                        r = describe(inp.send(0.05))
+                        if r[0] != "none":
+                            got.append(r)
+                        else:
+                            break
+                if len(fired) <= i:
+                    ctx.count("pairs_helper_starved")
+                    break
+                if got != [("ev", "pa", i), ("ev", "pb", i)]:
+                    (lost if len(got) < 2 else wrong).append({"round": i, "got": got})
+                    break
+    finally:
+        for _ in range(rounds):
+            go.release()
+        th.join(10)
+        release_trigger_fds(inp, [ts_fast, ts_slow])
+    sig = ("C08", "pairs", rounds, case["ctor_s"], case.get("n", 0))
+    ctx.count("pair_rounds", rounds)
+    ctx.judge(not lost and not wrong, case, sig, "C08:events", "both events of every round, in trigger order",
+              (lost or wrong)[:2])
+
+
 def run_case(ctx, case):
     if case.get("kind") == "pingpong":
         return run_pingpong(ctx, case)
+    if case.get("kind") == "pairs":
+        return run_pairs(ctx, case)
     if not hasattr(ctx, "interleavings"):
         ctx.interleavings = set()
     if case["kind"] == "seq":
@@ -687,8 +761,11 @@ def run(ctx):
             run_conc(ctx, case, yields if (yields and i % 2 == 0) else None)
             ctx.count("concurrent_histories")
         for i in range(ctx.share(8 if quick else 200)):
-            run_pingpong(ctx, {"kind": "pingpong", "rounds": 400, "seed": rng.randrange(1 << 30)},
+            run_pingpong(ctx, {"kind": "pingpong", "rounds": 400, "seed": rng.randrange(1 << 30),
+                               "slow_ctor": rng.choice([0.0, 0.0003, 0.001])},
                          yields if i % 2 else None)
+        for i in range(ctx.share(8 if quick else 200)):
+            run_pairs(ctx, {"kind": "pairs", "rounds": 150, "ctor_s": rng.choice([0.0002, 0.001, 0.003]), "n": i})
     finally:
         if yields:
             yields.uninstall()
